@@ -169,7 +169,7 @@ def oracle (rest : List String) : String :=
     -- WaitStopWithTimeout returned before its timeout => every queue worker had exited
     match (kv? "q" args).bind natList?, (kv? "ev" args).bind trace? with
     | some qs, some log =>
-      let bad := qs.filter fun q => !(log.contains (.exit q)) || busy q log
+      let bad := qs.filter fun q => !(exited q log) || busy q log
       if bad.isEmpty then "true" else s!"false wait-returned-while-workers-still-alive-{showNats bad}"
     | _, _ => "bad-op"
   | _ => "bad-op"
